@@ -228,3 +228,45 @@ Proof.
   destruct (mfm_prefix cl tfd frs false ks j st S) as (_ & U & Sh & _).
   split; [|split; auto]. intros f Hf. eapply shape_each; eauto.
 Qed.
+
+(* ---------------------------------------------------------------- gd_include(GD_CREAT): a fragment file created, then flushed *)
+(* gd_include creates the new fragment's file empty under its final name
+   (open O_CREAT|O_EXCL, close) and the following metaflush writes the parent
+   and the new fragment by the usual protocol: at every instant every fragment
+   file is as before the call, as right after the creation (the new fragment:
+   empty), or complete new *)
+Definition include_trace (cl : bool) (tfd d : fd) (p : path) (frs : list frag) (k : option nat) : list tstep :=
+  ok (Creat d p 438%N) :: ok (Close d) :: mf_trace cl tfd frs false k.
+
+Lemma include_crash_lemma : forall cl tfd d p frs k j st,
+  scen_ok frs st -> names st p = None -> (forall f, In f frs -> ftmp f <> p) ->
+  let st1 := run [ok (Creat d p 438%N); ok (Close d)] st in
+  lookup st1 p = Some [] /\
+  (forall q, q <> p -> lookup st1 q = lookup st q) /\
+  forall f, In f frs ->
+    lookup (crash (include_trace cl tfd d p frs k) j st) (fpath f) = lookup st (fpath f) \/
+    lookup (crash (include_trace cl tfd d p frs k) j st) (fpath f) = lookup st1 (fpath f) \/
+    lookup (crash (include_trace cl tfd d p frs k) j st) (fpath f) = Some (new_text f).
+Proof.
+  intros cl tfd d p frs k j st SC Hn HT st1.
+  assert (S' := SC). destruct S' as (W & ND1 & ND2 & T & X).
+  destruct (creat_fresh st d p 438%N W Hn) as (_ & F1 & N1 & D1 & K1).
+  set (sc := exec (ok (Creat d p 438%N)) st) in *.
+  assert (E1 : forall q, lookup st1 q = lookup sc q) by reflexivity.
+  assert (L1 : lookup st1 p = Some []).
+  { rewrite E1. unfold lookup. rewrite N1, D1. reflexivity. }
+  assert (K : forall q, q <> p -> lookup st1 q = lookup st q).
+  { intros q Hq. rewrite E1. apply K1; auto. }
+  split; [exact L1|]. split; [exact K|].
+  assert (S1 : scen_ok frs st1).
+  { split; [unfold st1; apply run_wf; auto|]. split; [auto|]. split; [auto|]. split; [|auto].
+    intros f Hf. rewrite K; auto. }
+  intros f Hf. unfold include_trace, crash.
+  destruct j as [|[|j]].
+  - left. reflexivity.
+  - right. left. simpl. fold sc. now rewrite E1.
+  - change (firstn (Datatypes.S (Datatypes.S j)) (ok (Creat d p 438%N) :: ok (Close d) :: mf_trace cl tfd frs false k))
+      with (ok (Creat d p 438%N) :: ok (Close d) :: firstn j (mf_trace cl tfd frs false k)).
+    rewrite !run_cons. change (exec (ok (Close d)) (exec (ok (Creat d p 438%N)) st)) with st1.
+    destruct (crash_atomic_lemma cl tfd frs k j st1 S1 f Hf) as [A | A]; unfold crash in A; rewrite A; auto.
+Qed.
